@@ -12,6 +12,7 @@ import gen_prog
 import gen_sem
 import gen_text
 import vlib
+import st_corr
 from vlib import hexs
 
 NEED_BIN = False
@@ -22,7 +23,9 @@ MANIFEST_ENTRY = {
     "text": "Proved: all alphabetic literal tokens of token.rs carry ignore(case) (table regenerated each run); after the terminator "
             "insertion every END_IF is followed by a ';' before the next significant token whether or not one was written, and the "
             "inserted token changes nothing else. The claim that the parsed library is invariant under every respelling is a theorem "
-            "on the expression scope of C01's parser proof (C08_expression_respelling); for the whole grammar it is decided by search: each generated unit "
+            "on the scope of C01's parser proofs: expressions (C08_expression_respelling) and statement lists (C08_statement_respelling: "
+            "two well-formed spellings with the same erasure -- any trivia at any slot, redundant parentheses, '+' signs; keyword and "
+            "identifier case lie below the token classes -- give the same result of the modelled entry point); for the whole grammar it is decided by search: each generated unit "
             "(syntactic generator and valid-by-construction generator) is written in several random spellings and the libraries are "
             "compared with Rust's == (which ignores positions and identifier case) together with the analysis verdict and codes.",
     "note": "Trusted: Coq kernel, translator (token table), harness op respell. Known findings: a comment ending in '**)' is a lexical "
@@ -141,6 +144,8 @@ def search(run, info):
                           {"a": a, "b": b, "mode": mode})
         if len(run.cov["samples"]) < 3 and a != b:
             run.sample({"mode": mode, "a": a[:120], "b": b[:160]})
+    # ---- the statement parser model (C08_statement_respelling): three spellings per body ----
+    st_stats = st_corr.check(run, info, 150 if run.tier == "quick" else 2500, 0, "c08")
     return {"coverage": {
         "rule": "units from the AST-level and the syntactic generator, each in %d random spellings cycling through: everything / letter case "
                 "only / layout, comments and the optional ';' only; valid-by-construction units with random letter case (verdict and codes); "
